@@ -161,3 +161,35 @@ Proof. exact (tool_recover_served meta_ok). Qed.
 End Recovered.
 Print Assumptions C16_recovered_record_carries_its_position.
 Print Assumptions C16_recovered_blob_is_served.
+
+(* ---- the metadata map (Format/Meta.v: the bincode image of HashMap<String, Vec<u8>>; `meta_ok` is the acceptance test of
+   the tools' reader, the `meta_ok` parameter of the theorems above is instantiated with it by the driver) ---- *)
+Require Pearl.Format.Meta Pearl.Format.MetaProofs.
+Module M := Pearl.Format.Meta.
+Module MP := Pearl.Format.MetaProofs.
+(* every metadata map the storage can write (String keys, distinct) is accepted: the hypothesis `metas_ok` of the
+   theorems above holds for every blob the storage produces *)
+Theorem C16_tools_accept_every_written_metadata : forall es : list (bytes * bytes),
+  N.of_nat (length es) < 2 ^ 64 ->
+  Forall (fun e => N.of_nat (length (fst e)) < 2 ^ 64 /\ N.of_nat (length (snd e)) < 2 ^ 64) es ->
+  Forall (fun e => M.is_utf8 (fst e) = true) es ->
+  M.keys_distinct (map fst es) = true -> M.meta_ok (M.encode_meta es) = true.
+Proof. exact MP.meta_ok_encode. Qed.
+(* a map that decodes with bytes left over (a damaged length prefix) is rejected by the tools (code commit 186ae23);
+   bincode alone ignores them, which is what made recovery write a shorter map under the old meta_size: finding F27 *)
+Theorem C16_metadata_with_trailing_bytes_rejected : forall (es : list (bytes * bytes)) (x : N) (rest : bytes),
+  N.of_nat (length es) < 2 ^ 64 ->
+  Forall (fun e => N.of_nat (length (fst e)) < 2 ^ 64 /\ N.of_nat (length (snd e)) < 2 ^ 64) es ->
+  Forall (fun e => M.is_utf8 (fst e) = true) es ->
+  M.meta_ok (M.encode_meta es ++ x :: rest) = false /\ M.meta_decodes (M.encode_meta es ++ x :: rest) = true.
+Proof. intros es x rest H1 H2 H3. split; [apply MP.meta_ok_no_trailing | apply MP.meta_decodes_ignores_trailing]; assumption. Qed.
+(* REFUTED clause (finding F26, known): "corrupted files are rejected" fails for the metadata, which no checksum covers:
+   two images of the same length that differ in one byte are both accepted *)
+Theorem C16_metadata_content_flip_undetected_refuted :
+  let m1' := updN MP.m1 25 (fun x : N => N.lxor x 64) in
+  m1' <> MP.m1 /\ length m1' = length MP.m1 /\ M.meta_ok MP.m1 = true /\ M.meta_ok m1' = true.
+Proof. pose proof MP.content_flip_is_accepted as H. cbv zeta in H |- *. destruct H as (_ & Hne & Hl & Hok & _).
+       split; [exact Hne | split; [exact Hl | split; [exact (proj1 MP.m1_ok) | exact Hok]]]. Qed.
+Print Assumptions C16_tools_accept_every_written_metadata.
+Print Assumptions C16_metadata_with_trailing_bytes_rejected.
+Print Assumptions C16_metadata_content_flip_undetected_refuted.
